@@ -15,7 +15,7 @@ pub const THR: [f64; 7] = [0.0, 0.05, 0.3, 0.5, 0.7, 0.95, 1.0];
 
 pub fn run(tier: Tier) -> i32 {
     let rep = Report::new("C11", tier, "model_checking");
-    rep.set_rule("SCOPE: F0-stream thresholds {-0,0,.05,.3,.5,.7,.95,1} and up to three thresholds exactly equal to voicing weights of the utterance x (default + every single deviation of the other streams' thresholds {0,1} and of every stream's GV weight {0,2}, and a pitch shift alone or with another stream's threshold) x voices (V0, P1..P3, generated with voicing weights straddling the lattice, one with weights exactly 0 or 1) x utterances; trajectories via hook 1; oracle: frame voiced iff msd(state(frame)) > threshold[1] with msd from Models::model_stream(1), voiced sets nested along the thresholds, spectrum/low-pass trajectories bit-identical across F0-threshold and F0-GV-weight values, F0 trajectory bit-identical across other streams' settings, unvoiced frames rendered as the reference noise and voiced frames as pulse trains on zero-spectrum voices (one of them with log-F0 leaves at 15 Hz); distinct = (voice, utterance, other deviation, threshold); non-trivial = utterance has both voiced and unvoiced states at some threshold");
+    rep.set_rule("SCOPE: F0-stream thresholds {-0,0,.05,.3,.5,.7,.95,1} and up to three thresholds exactly equal to voicing weights of the utterance x (default + every single deviation of the other streams' thresholds {0,1} and of every stream's GV weight {0,2}, and a pitch shift alone or with another stream's threshold) x voices (V0, P1..P3, generated (the first of them also on the whole corpus read twice as one utterance of 2912 labels) with voicing weights straddling the lattice, one with weights exactly 0 or 1) x utterances; trajectories via hook 1; oracle: frame voiced iff msd(state(frame)) > threshold[1] with msd from Models::model_stream(1), voiced sets nested along the thresholds, spectrum/low-pass trajectories bit-identical across F0-threshold and F0-GV-weight values, F0 trajectory bit-identical across other streams' settings, unvoiced frames rendered as the reference noise and voiced frames as pulse trains on zero-spectrum voices (one of them with log-F0 leaves at 15 Hz); distinct = (voice, utterance, other deviation, threshold); non-trivial = utterance has both voiced and unvoiced states at some threshold");
     rep.assume("threshold lattice only; state(frame) derived from DurationEstimator::create through the public API");
     let corpus = labels::corpus();
     let mut utts: Vec<Vec<String>> = vec![vec![corpus[41].clone()], corpus[40..43].to_vec(), corpus[0..3].to_vec()];
@@ -48,6 +48,10 @@ pub fn run(tier: Tier) -> i32 {
     }
     let nontriv = AtomicU64::new(0);
     let flips = AtomicU64::new(0);
+    // beyond the small scope: the whole corpus twice as one utterance (2912 labels), on the first generated voice only
+    let n_utts = utts.len();
+    utts.push(corpus.iter().chain(corpus.iter()).cloned().collect());
+    let first_gen = voices.iter().position(|v| v.3 != 5 || !v.0.starts_with(['V', 'P'])).unwrap_or(0);
     let mut jobs: Vec<(usize, usize, Vec<Act>)> = Vec::new();
     for (vi, v) in voices.iter().enumerate() {
         let mut others: Vec<Vec<Act>> = vec![vec![]];
@@ -70,6 +74,12 @@ pub fn run(tier: Tier) -> i32 {
             }
         }
         for ui in 0..utts.len() {
+            if ui >= n_utts {
+                if vi == first_gen {
+                    jobs.push((vi, ui, vec![]));
+                }
+                continue;
+            }
             for o in &others {
                 if vi < 4 && v.3 == 5 && ui >= 3 && !o.is_empty() && tier == Tier::Quick {
                     continue;
